@@ -4,6 +4,7 @@ import (
 	"fmt"
 	"go/token"
 	"go/types"
+	"io/fs"
 	"sort"
 	"strings"
 
@@ -14,7 +15,7 @@ func init() {
 	register("C01", &propDef{
 		Title:           "Unpack never touches anything outside the destination directory",
 		ConfigSensitive: true,
-		Rules:           []func(*Checker){ruleC01Sinks, ruleC01Ctor, ruleC01Guards, rulePredSound("C01.pred"), ruleC01Walk, ruleC01NoFollow, ruleC01Replace, ruleLinkRestore("C01.linkrestore"), rulePackerWriters("C01.percall")},
+		Rules:           []func(*Checker){ruleC01Sinks, ruleC01Ctor, ruleC01Guards, rulePredSound("C01.pred"), ruleC01Walk, ruleC01NoFollow, ruleC01Replace, ruleLinkRestore("C01.linkrestore"), rulePackerWriters("C01.percall"), ruleC04Relative("C01.relative")},
 		NotDecided: []string{
 			"whether a lexically accepted link resolves physically inside dst (depends on other links; see C04)",
 			"the bound of the parent walk (it stops before the final component; the final component is covered by C01.nofollow)",
@@ -705,6 +706,31 @@ func ruleC01Walk(c *Checker) {
 		// (1) walked path is sound
 		ok, why := walkSound(ls.Call.Args[0], H, map[ssa.Value]bool{})
 		c.check(ok, R, fname, "walked path", pos, "Lstat argument is dst joined with components split from the cleaned relative path", "the walked path is not derived from the cleaned entry path: "+why)
+		// (1b) ... and lies below the destination: what is examined is a join made in this round (dst or a
+		// prefix with one more component on top), or a value the loop has just found different from the root
+		// it climbs towards. The destination itself is not the slug's: it may be a link to the directory the
+		// caller wants filled, and a walk that examines it refuses every entry.
+		{
+			arg := canon(ls.Call.Args[0])
+			below := ""
+			if cl := callOf(arg); cl != nil && isFunc(calleeObj(cl), "path/filepath", "Join") && len(cl.Call.Args) >= 1 {
+				below = "a join made in the same round"
+			}
+			if below == "" {
+				neT, _ := condEdges(H, func(v ssa.Value) bool {
+					bo, ok := v.(*ssa.BinOp)
+					return ok && bo.Op == token.NEQ && (canon(bo.X) == arg || canon(bo.Y) == arg)
+				})
+				_, eqF := condEdges(H, func(v ssa.Value) bool {
+					bo, ok := v.(*ssa.BinOp)
+					return ok && bo.Op == token.EQL && (canon(bo.X) == arg || canon(bo.Y) == arg)
+				})
+				if guarded(ls.Block(), append(neT, eqF...)) {
+					below = "past a test that it differs from the root the loop climbs to"
+				}
+			}
+			c.check(below != "", R, fname, "walked path below the destination", pos, below, "the value examined can be the destination directory itself (the loop's start value, or the parent of a value that was not compared with the root first): a destination that is a symlink to the directory to fill makes every entry fail with 'through symlink'")
+		}
 		// (2) symlink edge -> error
 		fi := extractOf(ls, 0)
 		found := false
@@ -800,52 +826,108 @@ func reaches(a, b *ssa.BasicBlock) bool {
 	return false
 }
 
-// isSymlinkModeTest: fi.Mode()&ModeSymlink != 0 (or the IsSymlink-like
-// equivalents) on the given FileInfo value.
-func isSymlinkModeTest(v ssa.Value, fi ssa.Value) bool {
-	bo, ok := v.(*ssa.BinOp)
-	if !ok || (bo.Op != token.NEQ && bo.Op != token.EQL) {
-		return false
+// symlinkTest recognises the spellings of "is this a symbolic link" on a mode
+// obtained from a FileInfo's Mode():  m&ModeSymlink != 0 (== 0),
+// m.Type() == ModeSymlink (!=), m&ModeType == ModeSymlink (!=), m.Type()&ModeSymlink != 0 (== 0).
+// It returns the FileInfo value and whether the comparison being TRUE means "is a link".
+func symlinkTest(v ssa.Value) (fi ssa.Value, trueIsLink bool, ok bool) {
+	const modeSymlink = 1 << 27
+	const modeType = int64(fs.ModeType)
+	bo, isBo := v.(*ssa.BinOp)
+	if !isBo || (bo.Op != token.NEQ && bo.Op != token.EQL) {
+		return nil, false, false
 	}
-	if z, ok := constInt(bo.Y); !ok || z != 0 {
-		return false
+	// the mode value: Mode() of something, possibly through Type()
+	modeOf := func(x ssa.Value) (ssa.Value, bool) {
+		x = canon(x)
+		if cl, isCall := x.(*ssa.Call); isCall && !cl.Call.IsInvoke() {
+			if o := calleeObj(cl); o != nil && o.Name() == "Type" && objPkgPath(o) == "io/fs" && len(cl.Call.Args) == 1 {
+				x = canon(cl.Call.Args[0])
+			}
+		}
+		cl, isCall := x.(*ssa.Call)
+		if !isCall || !cl.Call.IsInvoke() || cl.Call.Method.Name() != "Mode" {
+			// a mode handed over as a value (the classifier's parameter) stands for itself
+			if n, isN := types.Unalias(x.Type()).(*types.Named); isN && n.Obj().Name() == "FileMode" && n.Obj().Pkg() != nil && n.Obj().Pkg().Path() == "io/fs" {
+				return x, true
+			}
+			return nil, false
+		}
+		return cl.Call.Value, true
 	}
-	and, ok := bo.X.(*ssa.BinOp)
-	if !ok || and.Op != token.AND {
-		return false
+	lhs, rhs := bo.X, bo.Y
+	if _, isC := constInt(lhs); isC {
+		lhs, rhs = rhs, lhs
 	}
-	m, ok := constInt(and.Y)
-	if !ok || m != 1<<27 { // fs.ModeSymlink
-		return false
+	k, isC := constInt(rhs)
+	if !isC {
+		return nil, false, false
 	}
-	call, ok := and.X.(*ssa.Call)
-	if !ok || !call.Call.IsInvoke() || call.Call.Method.Name() != "Mode" {
-		return false
+	if and, isAnd := lhs.(*ssa.BinOp); isAnd && and.Op == token.AND {
+		m, isM := constInt(and.Y)
+		x := and.X
+		if !isM {
+			m, isM = constInt(and.X)
+			x = and.Y
+		}
+		if !isM {
+			return nil, false, false
+		}
+		f, okf := modeOf(x)
+		if !okf {
+			return nil, false, false
+		}
+		switch {
+		case m == modeSymlink && k == 0:
+			return f, bo.Op == token.NEQ, true
+		case m == modeSymlink && k == modeSymlink:
+			return f, bo.Op == token.EQL, true
+		case m == modeType && k == modeSymlink:
+			return f, bo.Op == token.EQL, true
+		}
+		return nil, false, false
 	}
-	return fi == nil || canon(call.Call.Value) == canon(fi)
+	// m.Type() == ModeSymlink
+	if k != modeSymlink {
+		return nil, false, false
+	}
+	if cl, isCall := canon(lhs).(*ssa.Call); isCall && !cl.Call.IsInvoke() {
+		if o := calleeObj(cl); o != nil && o.Name() == "Type" && objPkgPath(o) == "io/fs" {
+			if f, okf := modeOf(cl); okf {
+				return f, bo.Op == token.EQL, true
+			}
+		}
+	}
+	return nil, false, false
 }
 
-// symlinkEdges: the edges on which a ModeSymlink test of fi's mode (either
-// polarity: mode&ModeSymlink != 0 or == 0) says "is a link" / "is not".
+// isSymlinkModeTest: v is one of those tests, on the given FileInfo value (any, when fi is nil).
+func isSymlinkModeTest(v ssa.Value, fi ssa.Value) bool {
+	f, _, ok := symlinkTest(v)
+	return ok && (fi == nil || canon(f) == canon(fi))
+}
+
+// symlinkEdges: the edges on which a symlink test of fi's mode says "is a link" / "is not".
 func symlinkEdges(fn *ssa.Function, fi ssa.Value) (isLink, notLink []Edge) {
 	tE, fE := condEdges(fn, func(v ssa.Value) bool { return isSymlinkModeTest(v, fi) })
-	pol := func(e Edge) bool { // true: the matched comparison is "== 0"
+	pol := func(e Edge) bool { // true: the matched comparison being true means "is a link"
 		ifi := e.From.Instrs[len(e.From.Instrs)-1].(*ssa.If)
 		cnd, _ := stripNot(ifi.Cond)
-		return cnd.(*ssa.BinOp).Op == token.EQL
+		_, t, _ := symlinkTest(cnd)
+		return t
 	}
 	for _, e := range tE {
 		if pol(e) {
-			notLink = append(notLink, e)
-		} else {
 			isLink = append(isLink, e)
+		} else {
+			notLink = append(notLink, e)
 		}
 	}
 	for _, e := range fE {
 		if pol(e) {
-			isLink = append(isLink, e)
-		} else {
 			notLink = append(notLink, e)
+		} else {
+			isLink = append(isLink, e)
 		}
 	}
 	return
